@@ -42,11 +42,14 @@ func firstFailure(sc *BatchSc, evs []BEv) (item int, last BEv, found bool) {
 }
 
 func judgeC09(sc *BatchSc, x *batchExec, br batchRun, fail string) Verdict {
-	if fail != "" {
+	if fail != "" && !goroutinesRemain(fail) {
 		return bad("C09:bubble", "%s", fail)
 	}
 	if br.Panic != "" {
 		return bad("C09:panic", "%s", br.Panic)
+	}
+	if x != nil && x.unattributed > 0 {
+		return ok(false, "fallback-call-not-attributable")
 	}
 	n := sc.n()
 	per := itemEvents(br.Events, n)
